@@ -224,6 +224,24 @@ func (e *env) seeds() []seed {
 		ua = append(ua, 255, 0, 0, 0, 4, 3, 9, 9, 9)
 		add("crafted: user attribute packet (subpacket lengths in 1, 2 and 5 octets) after a user id", "crafted packet", append(pkt(13, []byte("u <u@example.org>")), pkt(17, ua)...))
 	}
+	// armored blocks whose line lengths sit on the reader's thresholds (C/E): body lines of 96
+	// (longest accepted), 97, 100 (= the bufio.Reader size of armor.Decode: the line comes back
+	// as a fragment) and 101 characters; header lines of 99..102 characters whose ": " separator
+	// and value straddle the 100-octet fragment boundary.
+	{
+		lit := append([]byte{'b', 0, 0, 0, 0, 0}, bytes.Repeat([]byte("armor line length seed. "), 6)...)
+		body := pkt(11, lit)
+		for _, w := range []int{96, 97, 100, 101} {
+			add(fmt.Sprintf("crafted: armored literal message, body lines of %d characters", w), "armored message", append(pgpref.ArmorEncode("PGP MESSAGE", nil, body, w), '\n'))
+		}
+		var hs []pgpref.Header
+		for _, n := range []int{99, 100, 101, 102} {
+			// key of n-9 characters: the ": " starts at offset n-9, the value fills the line to n+8
+			hs = append(hs, pgpref.Header{Key: strings.Repeat("K", n-9), Value: strings.Repeat("v", 17)})
+		}
+		hs = append(hs, pgpref.Header{Key: "Comment", Value: strings.Repeat("c", 200)}, pgpref.Header{Key: "Empty", Value: ""})
+		add("crafted: armored literal message, header lines around the 100-octet fragment boundary", "armored message", append(pgpref.ArmorEncode("PGP MESSAGE", hs, body[:40], 64), '\n'))
+	}
 	s = append(s, e.packageMade()...)
 	s = append(s, e.craftedPKESK()...)
 	total := 0
